@@ -26,6 +26,9 @@ pub struct Case {
     /// 0 = parse_list, 1 = parse_str_with_list with an extra main schema referencing the inputs
     pub api: u8,
     pub salt: u64,
+    /// defaults added to top-level record fields: (full name of the input, field name, default)
+    #[serde(default)]
+    pub defaults: Vec<(String, String, J)>,
 }
 
 // ------------------------------------------------------------------------------------------------
@@ -312,7 +315,23 @@ fn judge_one(m: &Model, o: &Outcome, order: &[usize], which: &str) -> Option<Fai
 }
 
 fn run_case(case: &Case, ctx: &mut Ctx) -> Option<Failure> {
-    let jsons: Vec<J> = case.inputs.iter().map(to_json).collect();
+    let mut jsons: Vec<J> = case.inputs.iter().map(to_json).collect();
+    for (top, field, d) in &case.defaults {
+        for j in jsons.iter_mut() {
+            let is_top = j.as_object().and_then(|o| fullname(o, &None)).map(|x| &x.0 == top).unwrap_or(false);
+            if !is_top {
+                continue;
+            }
+            if let Some(fs) = j.get_mut("fields").and_then(|f| f.as_array_mut()) {
+                for f in fs.iter_mut() {
+                    if f.get("name").and_then(|n| n.as_str()) == Some(field.as_str()) {
+                        f["default"] = d.clone();
+                        ctx.agg.count("probe.field_default_on_input");
+                    }
+                }
+            }
+        }
+    }
     let texts: Vec<String> = jsons.iter().map(|j| serde_json::to_string(j).unwrap()).collect();
     let m = model_of(&jsons);
     if m.top.iter().any(|t| t.is_empty()) {
@@ -499,7 +518,8 @@ impl SetGen<'_> {
                 }
             }
             (None, _) => Some(RS::Ref { full: full.to_string(), short: false }),
-            (Some(n), Some(e)) if n == e => Some(RS::Ref { full: full.to_string(), short: self.r.chance(1, 2) }),
+            // (a type called like a schema kind is only ever referenced by its full name)
+            (Some(n), Some(e)) if n == e => Some(RS::Ref { full: full.to_string(), short: self.r.chance(1, 2) && !["record", "enum", "fixed", "array", "map"].contains(&split_full(full).1) }),
             (Some(_), _) => Some(RS::Ref { full: full.to_string(), short: false }),
         }
     }
@@ -536,9 +556,12 @@ fn gen_set(r: &mut Rng) -> Vec<RS> {
     // names of the inputs first (so that any input can reference any other)
     let mut tops: Vec<(String, NameStyle)> = vec![];
     for i in 0..n {
-        let short = format!("T{i}");
+        // now and then an input is called like a schema kind
+        let short = if g.r.chance(1, 16) { ["record", "enum", "fixed", "array", "map"][i % 5].to_string() } else { format!("T{i}") };
         match *g.r.pick(&NSS) {
             Some(ns) => tops.push((format!("{ns}.{short}"), if g.r.chance(1, 2) { NameStyle::Dotted } else { NameStyle::NsAttr })),
+            // the bare word `record` is not a reference: such an input always gets a namespace
+            None if !short.starts_with('T') => tops.push((format!("kw.{short}"), NameStyle::Dotted)),
             None => tops.push((short, NameStyle::Inherit)),
         }
     }
@@ -551,10 +574,15 @@ fn gen_set(r: &mut Rng) -> Vec<RS> {
         let ns = split_full(&full).0.map(|s| s.to_string());
         if g.r.chance(1, 5) {
             // non-record input
-            inputs.push(if g.r.chance(1, 2) {
-                RS::Enum { full, style, symbols: vec!["X".into(), "Y".into(), "Z".into()] }
-            } else {
-                RS::Fixed { full, style, size: 4 }
+            inputs.push(match g.r.below(5) {
+                0 | 1 => RS::Enum { full, style, symbols: vec!["X".into(), "Y".into(), "Z".into()] },
+                2 | 3 => RS::Fixed { full, style, size: 4 },
+                // a named type carrying a logical type, referenced from other inputs
+                _ => match g.r.below(3) {
+                    0 => RS::Logical(crate::gen::Logical::DecimalFixed { precision: 5, scale: 2 }, Box::new(RS::Fixed { full, style, size: 4 })),
+                    1 => RS::Logical(crate::gen::Logical::Duration, Box::new(RS::Fixed { full, style, size: 12 })),
+                    _ => RS::Logical(crate::gen::Logical::UuidFixed, Box::new(RS::Fixed { full, style, size: 16 })),
+                },
             });
             continue;
         }
@@ -680,6 +708,51 @@ fn gen_set(r: &mut Rng) -> Vec<RS> {
     inputs
 }
 
+/// Valid defaults for some top-level record fields (validated by the parser against the field's
+/// type at the moment the field is parsed - so a default on a reference-typed field needs the
+/// referenced definition to be known by then).
+fn gen_defaults(r: &mut Rng, inputs: &[RS]) -> Vec<(String, String, J)> {
+    if r.chance(1, 2) {
+        return vec![];
+    }
+    let mut defs = Defs::new();
+    for i in inputs {
+        collect_defs(i, &mut defs);
+    }
+    fn simple_default(t: &RS, defs: &Defs, depth: u32) -> Option<J> {
+        match t {
+            RS::Long | RS::Int => Some(json!(7)),
+            RS::String => Some(json!("d")),
+            RS::Array(_) => Some(json!([])),
+            RS::Union(bs) if matches!(bs.first(), Some(RS::Null)) => Some(J::Null),
+            RS::Enum { symbols, .. } => symbols.first().map(|s| json!(s)),
+            RS::Fixed { size, .. } => Some(json!("a".repeat(*size))),
+            RS::Record { fields, .. } if depth < 2 => {
+                let mut m = serde_json::Map::new();
+                for (n, ft) in fields {
+                    m.insert(n.clone(), simple_default(ft, defs, depth + 1)?);
+                }
+                Some(J::Object(m))
+            }
+            RS::Ref { full, .. } if depth < 2 => simple_default(defs.get(full.trim_start_matches('.'))?, defs, depth + 1),
+            _ => None,
+        }
+    }
+    let mut out = vec![];
+    for inp in inputs {
+        if let RS::Record { full, fields, .. } = inp {
+            for (name, t) in fields {
+                if r.chance(1, 2) {
+                    if let Some(d) = simple_default(t, &defs, 0) {
+                        out.push((full.clone(), name.clone(), d));
+                    }
+                }
+            }
+        }
+    }
+    out
+}
+
 pub struct C20;
 
 impl Property for C20 {
@@ -732,7 +805,8 @@ impl Property for C20 {
         let mut perm: Vec<usize> = (0..inputs.len()).collect();
         sr.shuffle(&mut perm);
         let picks: Vec<usize> = (0..inputs.len() + 2).map(|_| sr.usize_below(inputs.len())).collect();
-        Some(Case { inputs, perm, picks, api: if sr.chance(1, 4) { 1 } else { 0 }, salt: wr.next_u64() })
+        let defaults = gen_defaults(&mut rng.fork("defaults"), &inputs);
+        Some(Case { inputs, perm, picks, api: if sr.chance(1, 4) { 1 } else { 0 }, salt: wr.next_u64(), defaults })
     }
 
     fn execute(&self, case: &Case, ctx: &mut Ctx) -> Option<Failure> {
